@@ -46,13 +46,17 @@ class Spec:
     continue_runs: int = 0
     continue_via: str = "ctx"
     resume_count: int = 1  # with resume=True: how many snapshot+resume actions one execution may take
+    # "abort": serialize the running context, then hard-stop the run; "cancel": handler.cancel_run() first, serialize
+    # the context of the cancelled run afterwards
+    resume_via: str = "abort"
+    busy_ticks: int = 0  # RunConfig.busy_ticks
 
 
 def limits_of(wf: Any) -> dict[str, int]:
     return {n: f._step_config.num_workers for n, f in wf._get_steps().items()}
 
 
-def make_resume_action(e: Any, state: dict[str, Any], make_wf: Callable[[], Any]) -> Callable[[], None]:
+def make_resume_action(e: Any, state: dict[str, Any], make_wf: Callable[[], Any], via: str = "abort") -> Callable[[], None]:
     """Returns the environment action "serialize the context, hard-stop the run, resume it on a fresh workflow
     instance".  ``state`` holds hd / consumer / wf and is updated in place."""
     h = e.h
@@ -61,6 +65,9 @@ def make_resume_action(e: Any, state: dict[str, Any], make_wf: Callable[[], Any]
         hd = state["hd"]
         if hd.is_done():
             return
+        if via == "cancel":
+            e.loop.create_task(hd.cancel_run())
+            e.loop.drain()  # the run ends as cancelled; its context is serialized afterwards
         snap = json.loads(json.dumps(hd.ctx.to_dict()))
         hd._external_adapter.abort()  # hard-stop the original run
         state["consumer"].cancel()
@@ -96,7 +103,7 @@ def make_resume_action(e: Any, state: dict[str, Any], make_wf: Callable[[], Any]
 
 
 def run_engine(ex: Execution, spec: Spec, oracle: Oracle) -> tuple[Any, list[Any]]:
-    cfg = RunConfig(pair_release=spec.pair, time_depth=spec.time_depth, pair_time=spec.pair_time)
+    cfg = RunConfig(pair_release=spec.pair, time_depth=spec.time_depth, pair_time=spec.pair_time, busy_ticks=spec.busy_ticks)
     if oracle.on_quiescent:
         cfg.on_quiescent.append(oracle.on_quiescent)
     with EngineExec(ex, cfg) as e:
@@ -120,7 +127,7 @@ def run_engine(ex: Execution, spec: Spec, oracle: Oracle) -> tuple[Any, list[Any
             for sc in spec.scripts(state):
                 e.add_script(sc)
         if spec.resume:
-            do_resume = make_resume_action(e, state, lambda: cls(runtime=MonRuntime(BasicRuntime()), **wkw))
+            do_resume = make_resume_action(e, state, lambda: cls(runtime=MonRuntime(BasicRuntime()), **wkw), via=spec.resume_via)
             e.add_script([Action(f"snapshot+resume#{i + 1}" if spec.resume_count > 1 else "snapshot+resume", do_resume)
                           for i in range(spec.resume_count)])
         cfg.stop_when = lambda hh: state["hd"].is_done() and hh.stream_done
